@@ -283,7 +283,7 @@ func init() {
 	c06 := []*ir.Profile{
 		{Name: "c06-running", MinSteps: 1, MaxSteps: 4, Durs: []int64{20, 200, 2000, 10000}, PWaitFor: 30, PDeploySlow: 40, PNoSignal: 30, Closure: []int64{0, 10, 5000}, MaxOutputs: 2},
 		{Name: "c06-mixed", MinSteps: 1, MaxSteps: 5, Durs: []int64{0, 5, 100, 3000}, Modes: []string{"err", "crash", "hang"}, PBad: 35, PDeployFail: 10, PDeploySlow: 40, PDisabled: 15, PWaitFor: 30, PNoSignal: 30, Closure: []int64{0, 10, 5000}, MaxOutputs: 2, ErrOutput: true},
-		{Name: "c06-loops", MinSteps: 1, MaxSteps: 3, Durs: []int64{20, 200, 2000}, Foreach: 60, PWaitFor: 20, Closure: []int64{0, 10, 5000}},
+		{Name: "c06-loops", ItemsFromStep: 30, MinSteps: 1, MaxSteps: 3, Durs: []int64{20, 200, 2000}, Foreach: 60, PWaitFor: 20, Closure: []int64{0, 10, 5000}},
 		{Name: "c06-ignore", MinSteps: 1, MaxSteps: 3, Durs: []int64{1000, 10000}, PNoSignal: 20, Closure: []int64{0, 10, 200}, IgnoreCancel: 60},
 	}
 	register(&PropDef{ID: "C06",
@@ -310,7 +310,7 @@ func init() {
 	// ---- C05: nothing is left running or deployed after a run or a parse returns ----
 	c05 := []*ir.Profile{
 		{Name: "c05-mixed", MinSteps: 1, MaxSteps: 5, Durs: []int64{0, 5, 100, 3000}, Modes: []string{"err", "crash", "panic", "hang", "alt"}, PBad: 40, PDeployFail: 15, PDeploySlow: 40, PDisabled: 20, PWaitFor: 30, PNoSignal: 30, Closure: []int64{0, 10, 5000}, MaxOutputs: 3, ErrOutput: true},
-		{Name: "c05-loops", MinSteps: 1, MaxSteps: 3, Durs: []int64{0, 5, 100}, Foreach: 60, Modes: []string{"err", "crash"}, PBad: 30, MaxOutputs: 2, ErrOutput: true},
+		{Name: "c05-loops", ItemsFromStep: 30, MinSteps: 1, MaxSteps: 3, Durs: []int64{0, 5, 100}, Foreach: 60, Modes: []string{"err", "crash"}, PBad: 30, MaxOutputs: 2, ErrOutput: true},
 		{Name: "c05-stop", MinSteps: 1, MaxSteps: 3, Durs: []int64{0, 5, 50}, StopIf: true, PDeploySlow: 30},
 	}
 	register(&PropDef{ID: "C05",
